@@ -365,6 +365,10 @@ int main(int argc, char **argv)
 	__sanitizer_install_malloc_and_free_hooks(hook_malloc, hook_free);
 	std::vector<std::string> jobs;
 	mc_jobs(tier, jobs);
+	if (getenv("MC_ONLY_JOB") && !g_replay) {   // development aid: restrict to jobs whose name contains the substring
+		std::vector<std::string> keep; for (auto &j : jobs) if (j.find(getenv("MC_ONLY_JOB")) != std::string::npos) keep.push_back(j);
+		jobs.swap(keep);
+	}
 	if (list) { for (auto &j : jobs) puts(j.c_str()); return 0; }
 
 	if (g_replay) {
